@@ -274,3 +274,17 @@ PROPS["C20"] = {
     "outside_claim": ["the watchdog and the service-level routing of submissions to managers", "the stop timer's linger period (the timer may fire at any select)", "true multi-goroutine interleavings"],
     "assumptions": ["a second send on a full capacity-1 reply channel blocks the manager forever (counted as a hang)"],
 }
+
+C11_Q = ["Harness_C11_namespace", "Harness_C11_container", "Harness_C11_netpol", "Harness_C11_netpol_off", "Harness_C11_objects"]
+PROPS["C11"] = {
+    "jobs": [{"pkg": "provider/cluster/kube", "files": ["harness/C11/builders.go"], "quick": C11_Q, "thorough": C11_Q,
+              "opts": {"timeout": 30000, "witness": 4},
+              "reach": {"Harness_C11_namespace": ["namespace"], "Harness_C11_container": ["container"], "Harness_C11_netpol": ["netpol"]}},
+             {"pkg": "provider/cluster/kube", "files": ["harness/C11/builders.go"], "quick": ["Harness_C11_commit"], "thorough": ["Harness_C11_commit"],
+              "opts": {"timeout": 60000, "witness": 2, "inctimeout": 0}, "reach": {"Harness_C11_commit": ["commit"]}}],
+    "bounds": {"quick": "lidNS on an arbitrary 28-byte digest (arbitrary owner address; SHA-224 uninterpreted); deploymentBuilder.create/update/container with symbolic cpu/memory/storage in [1,2^44] (bit-vectors) at commit levels 0/0.5/1, 3 runtime classes; the float64 commit-level kernel ComputeCommittedResources for every value in [1,2^44] at the factors {0,0.5,1,1.5,2,3,10,1024} (a fully symbolic factor times out on all three solvers); netPolBuilder.create with one service and one symbolic expose, evaluated by a policy evaluator in the harness for an arbitrary peer (same namespace / ingress namespace / ingress pod flags), destination port and protocol, and an arbitrary IPv4 egress address (bit-vector) and port; nsBuilder and serviceBuilder objects",
+               "thorough": "same harnesses with a 240 s solver budget"},
+    "stubs": COMMON_STUBS + ["sha256.Sum224 -> native on concrete input, fresh symbolic digest on symbolic input", "strings.ToLower -> per-byte ite", "math.Round -> fp.roundToIntegral RNA", "resource.Quantity -> opaque integer amount with scale (NewQuantity/NewScaledQuantity/DeepCopy/Value/MilliValue)"],
+    "outside_claim": ["distinct leases => distinct namespaces rests on SHA-224 collision resistance (assumed)", "the namespace ARGUMENT passed to the Kubernetes client in client.go/apply.go/cleanup.go (needs a clientset model; not built)", "ingress objects", "what the API server / CNI enforce", "commit factors other than the 8 listed; values above 2^44"],
+    "assumptions": ["NetworkPolicy semantics as documented by Kubernetes: a pod selected by any policy of a type is isolated for that type and admits the union of all rules", "the lease namespace is not the ingress controller's namespace"],
+}
